@@ -21,7 +21,7 @@ LEVEL = "exploration"
 def plan(tier):
     if tier == "thorough":
         return dict(rounds=640, examples_per_round=80, wall_cap=3000, job_timeout=1500)
-    return dict(rounds=40, examples_per_round=36, wall_cap=420, job_timeout=600)
+    return dict(rounds=32, examples_per_round=36, wall_cap=420, job_timeout=600)
 
 
 # ------------------------------------------------------------------ scenario strategy
@@ -480,7 +480,7 @@ def execute(sc):
 
 # ------------------------------------------------------------------ conservation (stat jobs)
 def stat_jobs(tier, seed):
-    N = 12000 if tier == "thorough" else 1500
+    N = 12000 if tier == "thorough" else 1000
     jobs = [dict(layer="conservation", chain="gibbs", temps=[1.0, 2.5, 6.0, 15.0], swaps=3, N=N, seed=(seed * 7919 + 1) & 0x7FFFFFFF),
             dict(layer="conservation", chain="hmc", temps=[1.0, 3.0, 9.0], swaps=2, N=N, seed=(seed * 7919 + 2) & 0x7FFFFFFF),
             dict(layer="conservation", chain="metropolis", temps=[2.0, 4.0, 8.0, 16.0, 32.0], swaps=4, N=N, seed=(seed * 7919 + 3) & 0x7FFFFFFF)]
